@@ -3,6 +3,7 @@ package main
 import (
 	"fmt"
 	"go/types"
+	"math/big"
 	"strings"
 
 	"golang.org/x/tools/go/ssa"
@@ -260,7 +261,11 @@ func (e *Engine) unknownCall(s *State, name string, sig *types.Signature, recv V
 		ev.Args = append(ev.Args, recv)
 	}
 	for _, a := range args {
-		ev.Args = append(ev.Args, e.snapshot(s, a))
+		if _, isSlice := a.(SliceV); isSlice {
+			ev.Args = append(ev.Args, e.snapshot(s, a)) // byte arguments are frozen as they were at the call
+		} else {
+			ev.Args = append(ev.Args, a)
+		}
 	}
 	var results []Val
 	for i := 0; i < rs.Len(); i++ {
@@ -269,6 +274,48 @@ func (e *Engine) unknownCall(s *State, name string, sig *types.Signature, recv V
 	ev.Results = results
 	if s.spec == 0 {
 		s.trace = append(append([]TraceEv(nil), s.trace...), ev)
+	}
+	// an assumed contract on the interface method (or external function) constrains the otherwise free results
+	if c := e.ifaceContracts[name]; c != nil && s.spec == 0 {
+		bind := func(spec *ssa.Function) []Val {
+			var pa []Val
+			for _, pp := range spec.Params {
+				nm := pp.Name()
+				switch {
+				case nm == "recv" && recv != nil:
+					pa = append(pa, recv)
+				case strings.HasPrefix(nm, "res") && isDigits(nm[3:]):
+					var i int
+					fmt.Sscanf(nm, "res%d", &i)
+					pa = append(pa, results[i])
+				default:
+					found := false
+					off := 0
+					if recv == nil && sig.Recv() != nil {
+						off = 1 // a concrete method: args[0] is the receiver
+						if sig.Recv().Name() == nm {
+							pa = append(pa, args[0])
+							found = true
+						}
+					}
+					for k := 0; k < sig.Params().Len() && !found; k++ {
+						if sig.Params().At(k).Name() == nm {
+							pa = append(pa, args[off+k])
+							found = true
+						}
+					}
+					if !found {
+						panic("interface contract names " + nm + ", which is not a parameter of " + name)
+					}
+				}
+			}
+			return pa
+		}
+		for _, pn := range c.D.Posts {
+			post := c.spec(pn)
+			e.assume(s, e.evalPure(s, post, bind(post), nil).(Term))
+		}
+		e.stubsUsed[shortName(name)+" (interface contract assumed: "+strings.Join(c.D.Posts, ",")+")"] = true
 	}
 	switch len(results) {
 	case 0:
@@ -295,6 +342,28 @@ func (e *Engine) traceIntrinsic(s *State, name string, args []Val) (Val, bool) {
 	switch name {
 	case "vsTraceLen":
 		return intT(int64(len(s.trace))), true
+	case "vsTraceFind", "vsTraceCount", "vsTraceFindNth": // position / number of events whose name ends in the given suffix
+		nm := args[0].(StrV)
+		if nm.Const == nil {
+			panic("TraceFind needs a constant name")
+		}
+		nth := 0
+		if name == "vsTraceFindNth" {
+			nth = idx(args[1])
+		}
+		cnt, pos := 0, -1
+		for i, ev := range s.trace {
+			if strings.HasSuffix(ev.Name, *nm.Const) {
+				if cnt == nth && pos < 0 {
+					pos = i
+				}
+				cnt++
+			}
+		}
+		if name == "vsTraceCount" {
+			return intT(int64(cnt)), true
+		}
+		return intT(int64(pos)), true
 	case "vsTraceIs":
 		i := idx(args[0])
 		nm := args[1].(StrV)
@@ -302,7 +371,7 @@ func (e *Engine) traceIntrinsic(s *State, name string, args []Val) (Val, bool) {
 			panic("TraceIs needs a constant name")
 		}
 		return boolT(i >= 0 && i < len(s.trace) && strings.HasSuffix(s.trace[i].Name, *nm.Const)), true
-	case "vsTraceBytes", "vsTraceInt", "vsTraceArgIs":
+	case "vsTraceBytes", "vsTraceInt", "vsTraceArg8", "vsTraceArg32", "vsTraceArgStr":
 		i, k := idx(args[0]), idx(args[1])
 		if i < 0 || i >= len(s.trace) || k < 0 || k >= len(s.trace[i].Args) {
 			// no such event on this path: the clause must have guarded this with TraceLen/TraceIs
@@ -312,11 +381,18 @@ func (e *Engine) traceIntrinsic(s *State, name string, args []Val) (Val, bool) {
 			return intT(0), true
 		}
 		return s.trace[i].Args[k], true
-	case "vsTraceRetInt", "vsTraceRetErr", "vsTraceRetInt64", "vsTraceRetUint32":
+	case "vsTraceRetInt", "vsTraceRetErr", "vsTraceRetInt64", "vsTraceRetUint32", "vsTraceRetBytes", "vsTraceRetBool":
 		i, k := idx(args[0]), idx(args[1])
 		if i < 0 || i >= len(s.trace) || k < 0 || k >= len(s.trace[i].Results) {
-			if name == "vsTraceRetErr" {
+			switch name {
+			case "vsTraceRetErr":
 				return IfaceV{IsNil: boolT(true)}, true
+			case "vsTraceRetBytes":
+				return SliceV{refT(0), intT(0), intT(0), intT(0), types.Typ[types.Uint8]}, true
+			case "vsTraceRetBool":
+				return boolT(false), true
+			case "vsTraceRetUint32":
+				return bvT(big.NewInt(0), 32), true
 			}
 			return intT(0), true
 		}
